@@ -157,7 +157,8 @@ Definition fail_if (b : bool) (code : N) (idx : N) (l : list (N * N)) : list (N 
    shown by an operation that writes none; 201 glyph not at the requested
    position; 301 display differs from canvas after draw; 401 draw did not
    transmit exactly the changed cells; 801 reported-known value untrue;
-   901 erase cleared the wrong cells / wrong rendition / moved cursor;
+   399 (marker only) bottom-right cell written on an immediate-wrap
+   terminal; 901 erase cleared the wrong cells / wrong rendition / moved cursor;
    1101 mode not as last requested or capability not respected;
    1301 bytes re-sent for what is already in effect; 1701 text altered. *)
 Definition oracle_step (cfg : vtcfg) (beh : behaviour) (adopt : pt -> pt -> pt)
@@ -251,10 +252,18 @@ Definition oracle_step (cfg : vtcfg) (beh : behaviour) (adopt : pt -> pt -> pt)
   | ODraw c =>
       let same_size := (cw c =? cw (os_frame s)) && (ch c =? ch (os_frame s)) in
       let prev := if same_size then os_frame s else blank_canvas (cw c) (ch c) in
-      let f := fail_if (check_text &&
+      (* the draw clauses presuppose a terminal of the canvas's size *)
+      let sized := pt_eqb (vsize v) (cw c, ch c) in
+      (* marker, not a failure: on a terminal that wraps immediately this draw
+         wrote the bottom-right cell, which scrolls the display (known
+         finding D7); later 301 reports under this configuration are
+         attributed to it by the harness *)
+      let f := fail_if (sized && (match wrap cfg with Immediate => true | _ => false end) &&
+                        existsb (fun pc => pt_eqb (fst pc) (cw c - 1, ch c - 1)) tr) 399 i f in
+      let f := fail_if (check_text && sized &&
                         negb (forallb (fun pe => cell_eqb (cells v' (fst pe)) (display_of (snd pe)))
                                       (region_visit c 0 0 (cw c) (ch c)))) 301 i f in
-      let f := fail_if (check_text && negb (trace_is tr (changed_cells prev c))) 401 i f in
+      let f := fail_if (check_text && sized && negb (trace_is tr (changed_cells prev c))) 401 i f in
       let f := fail_if (same_size && list_eqb element_eqb (grid c) (grid (os_frame s)) &&
                         negb (match o_bytes o with [] => true | _ => false end)) 401 i f in
       mkO v' (o_st o) None c (i + 1) f
